@@ -106,7 +106,54 @@ func embOf(code string, id int, tags []string, subs ...vals.V) vals.V {
 func isEmb(k string) bool { return k == "emb" || k == "pemb" || k == "*emb" }
 
 func mapOf(name string, n int) vals.V {
-	return vals.Map(map[string]vals.V{"name": vals.Str(name), "n": vals.Int(n), "body": vals.Str(bodyOpen + name + bodyClose)})
+	m := map[string]vals.V{"name": vals.Str(name), "n": vals.Int(n), "body": vals.Str(bodyOpen + name + bodyClose)}
+	if n%2 == 1 {
+		m["note"] = vals.Str("N" + name) // an optional per-item field: odd items have it, even ones do not
+	}
+	return vals.Map(m)
+}
+
+// listOf is a call of the scoped-slot list component over the collection at path items (maps,
+// possibly with nil items): the slot content prints item.name, index, note of the instance, tests
+// note (truthiness, ==) and reads page names.
+func listOf(id string, sc sscope, d Data, items string, destr bool, salt int, pageNames []string) Node {
+	pre := "sp."
+	if destr {
+		pre = ""
+	}
+	lc := &ListCall{Items: items, Destr: destr, Content: Probe{ID: id}}
+	lc.Content.Reads = []Read{
+		{Pos: "text", Cond: Cond{Path: pre + "item.name"}}, {Pos: "text", Cond: Cond{Path: pre + "index"}}, {Pos: "text", Cond: Cond{Path: pre + "note"}},
+		{Pos: "tern", Cond: Cond{Path: pre + "note", Op: "==", Lit: vals.Str("N" + letters[salt%len(letters)])}},
+		{Pos: "vif", Cond: Cond{Path: pre + "note"}},
+		{Pos: "vif", Cond: Cond{Path: pre + "index", Op: "==", Lit: vals.Int(salt % 3)}},
+	}
+	for i, n := range uniq(pageNames) {
+		if n == "sp" || n == "item" || n == "index" || n == "note" || n == "items" {
+			// the slot props, and the component's own prop / loop names: whether the slot content
+			// sees the component's scope is another property's subject
+			continue
+		}
+		for _, r := range readsFor(sc, d, n, salt+i, nil, false) {
+			if r.Pos == "text" || r.Pos == "tern" {
+				lc.Content.Reads = append(lc.Content.Reads, r)
+			}
+		}
+	}
+	return Node{List: lc}
+}
+
+// mapLists: paths at this point that hold lists of maps (for the list component).
+func mapLists(sc sscope, d Data, names []string) []string {
+	var out []string
+	for _, n := range uniq(names) {
+		if v, ok := sc.lookup(d, n); ok && (v.K == "[]any" || v.K == "[]map") {
+			if e, has := firstNonNil(v); has && e.K == "map" {
+				out = append(out, n)
+			}
+		}
+	}
+	return out
 }
 
 // htmlPath is the path below name whose value is inserted with v-html: the marked-up body of a
@@ -149,15 +196,22 @@ func sampleElem(c vals.V) vals.V {
 }
 
 // noExpr: names that the documentation tells authors not to use as variables in expressions
-// (docs/expressions.md "Variable Names to Avoid": count, and names of functions such as title).
-// They are used as loop variables and printed with {{ name }}, but not put into expressions.
+// (docs/expressions.md "Variable Names to Avoid": count, len). They are used as loop variables
+// and printed with {{ name }}, but not put into expressions. Names of registered template
+// functions that the documentation does not list (title, type, file, upper, json, default, trim,
+// lower) ARE used in expressions: the innermost binding wins over a function like over an outer
+// variable.
 func noExpr(path string) bool {
 	head := strings.SplitN(path, ".", 2)[0]
 	// Pname / Ptotal: scalars PROMOTED into the root struct from an embedded struct. Path lookup
 	// finds them; the expression environment lists a root struct's own fields only (another
 	// property's subject), so they are printed, looped over and shadowed, not compared.
-	return head == "title" || head == "count" || head == "Pname" || head == "Ptotal"
+	return head == "count" || head == "Pname" || head == "Ptotal"
 }
+
+// funcNames: registered template functions (funcmap.go) used as variable names.
+var funcNames = map[string]bool{"title": true, "type": true, "file": true, "upper": true, "lower": true, "trim": true, "json": true, "default": true,
+	"string": true, "int": true, "escape": true, "len": true, "formatTime": true, "formatDate": true, "jsonPretty": true, "jsonFile": true, "yamlFile": true}
 
 var strLits = []string{"a", "b", "c", "d", "p", "RN"}
 var fltLits = []string{"0.5", "1.5", "2.25", "3.75"}
@@ -234,6 +288,12 @@ func readsFor(sc sscope, d Data, name string, salt int, choose func(n int) int, 
 		return out
 	}
 	keep := func() bool { return choose == nil || choose(3) != 0 }
+	if funcNames[name] && (!bound || sc.nullable(name)) {
+		// Where such a name is NOT bound (after the loop, in a nil item's instance) it means the
+		// registered function in expressions - not comparable with a never-defined name; only the
+		// mustache path (which knows variables only) is read there.
+		return out
+	}
 	if bound && sc.nullable(name) {
 		// Some item bound to this name is nil. A nil item must read like a never-defined name
 		// (and never like the outer variable it shadows). Only what the control element defines
@@ -498,7 +558,8 @@ func core1(full bool, yield func(Case) bool) {
 				collName = "nope"
 			}
 			elem := sampleElem(coll)
-			varNames := append([]string{"v"}, rs.shadow...)
+			// the fresh name is v or the name of a registered template function
+			varNames := append([]string{[]string{"v", "type", "upper", "title"}[ci%4]}, rs.shadow...)
 			varNames = append(varNames, collName)
 			for _, vn := range varNames {
 				idxNames := []string{"", "i", rs.idxName}
@@ -713,6 +774,10 @@ func core2(yield func(Case) bool) {
 								if call.Inc != nil {
 									c.Prog = append([]Node{call}, c.Prog...)
 								}
+								if i%4 == 2 {
+									// the rows again through the scoped-slot list component (items with and without note, nil)
+									c.Prog = append(c.Prog, listOf("q1", root, d, xsN, i%8 == 2, i, pool))
+								}
 								if !yield(c) {
 									return
 								}
@@ -896,7 +961,7 @@ func (g *gen) data() {
 	switch g.int(0, 9, "root") {
 	case 0, 1, 2:
 		g.d.Root = "map"
-		for _, k := range []string{"name", "label", "total", "out", "v", "i", "Name", "value", "id"} {
+		for _, k := range []string{"name", "label", "total", "out", "v", "i", "Name", "value", "id", "title", "type"} {
 			if g.int(0, 2, "has"+k) > 0 {
 				g.d.Slots = append(g.d.Slots, Slot{k, g.scalar(k)})
 			}
@@ -937,8 +1002,8 @@ func (g *gen) data() {
 }
 
 // fresh names; value / href / lang / id are also common attribute names (:value="value")
-var freshVars = []string{"v", "w", "it", "e", "q", "value", "href", "lang"}
-var freshIdx = []string{"i", "j", "k", "n", "id"}
+var freshVars = []string{"v", "w", "it", "e", "q", "value", "href", "lang", "type", "title", "file", "upper", "json", "default"}
+var freshIdx = []string{"i", "j", "k", "n", "id", "trim", "lower"}
 
 // incNames: prop names of generated component calls; they overlap with root keys, loop
 // variable names and names that are never defined.
@@ -1164,6 +1229,12 @@ func (g *gen) loop(sc sscope, depth int, outerVars []string) []Node {
 			l.Body = append(l.Body, probeRich(g.id("p"), inner, g.d, all, g.int(0, 19, "salt"), g.chooser(), g.pick(uniq([]string{l.Var, l.Idx}), "rich")))
 		}
 	}
+	if l.Fill == nil && !textOnly {
+		// the list component inside the instance: its slot content also reads this loop's names
+		if ml := mapLists(inner, g.d, append(append([]string{}, g.roots...), l.Var)); len(ml) > 0 && g.int(0, 5, "bodylist") == 0 {
+			l.Body = append(l.Body, listOf(g.id("q"), inner, g.d, g.pick(ml, "listitems"), g.int(0, 1, "destr") == 0, g.int(0, 19, "salt"), names))
+		}
+	}
 	if setter != nil {
 		l.Body = append(l.Body, Node{Set: setter}) // last: nothing of the same instance reads it
 	}
@@ -1192,6 +1263,9 @@ func genCase(t *rapid.T) Case {
 	}
 	for k := g.int(1, 2, "ntop"); k > 0; k-- {
 		c.Prog = append(c.Prog, g.loop(sscope{}, 1, nil)...)
+	}
+	if ml := mapLists(sscope{}, g.d, g.roots); len(ml) > 0 && g.int(0, 1, "toplist") == 0 {
+		c.Prog = append(c.Prog, listOf(g.id("q"), sscope{}, g.d, g.pick(ml, "listitems"), rapid.Bool().Draw(t, "destr"), g.int(0, 19, "salt"), g.roots))
 	}
 	c.Tpl = buildTemplate(c)
 	return c
@@ -1321,6 +1395,8 @@ func classify(c Case) (bool, []string) {
 
 func countReads(n Node, cls map[string]bool) {
 	switch {
+	case n.List != nil:
+		cls["list-component(scoped slot)"] = true
 	case n.Text != nil:
 		cls["text-node"] = true
 	case n.Probe != nil:
